@@ -8,7 +8,7 @@
 
 static std::map<std::string, hz::PropFn> registry() {
   return {
-    {"C01", prop_c01}, {"C02", prop_c02}, {"C03", prop_c03_encoding}, {"C04", prop_c04}, {"C05", prop_c05},
+    {"C01", prop_c01}, {"C02", prop_c02}, {"C03", prop_c03}, {"C04", prop_c04}, {"C05", prop_c05},
   };
 }
 
